@@ -8,6 +8,8 @@ MUT=[
  ("C01-bind-overwrites", "C01", B, "\t_, ok := gb.affinityMap[bindKey]\n\tif !ok {\n\t\tgb.affinityMap[bindKey] = sc\n\t}", "\tgb.affinityMap[bindKey] = sc"),
  ("C01-ready-test-dropped", "C01", B, "\t\tif gb.scStates[sc] != connectivity.Ready {\n\t\t\t// It's possible", "\t\tif false && gb.scStates[sc] != connectivity.Ready {\n\t\t\t// It's possible"),
  ("C01-unbind-before-error-check", "C01", P, "\t\tp.detectUnresponsive(ctx, scRef, callStarted, info.Err)\n\t\tif info.Err != nil {\n\t\t\treturn\n\t\t}\n", "\t\tp.detectUnresponsive(ctx, scRef, callStarted, info.Err)\n\t\tif cmd == grpc_gcp.AffinityConfig_UNBIND {\n\t\t\tp.gb.unbindSubConn(boundKey)\n\t\t}\n\t\tif info.Err != nil {\n\t\t\treturn\n\t\t}\n"),
+ ("C01-unbind-does-not-delete", "C01", B, "\t\tdelete(gb.affinityMap, boundKey)\n", ""),
+ ("C17-entry-without-affinity-mapped", "C17", B, "\t\tif methodNames != nil && affinityCfg != nil {", "\t\tif methodNames != nil {"),
  ("C02-decrement-skipped-on-error", "C02", P, "\t\tscRef.streamsDecr()\n\t\tp.detectUnresponsive(ctx, scRef, callStarted, info.Err)\n\t\tif info.Err != nil {\n\t\t\treturn\n\t\t}", "\t\tp.detectUnresponsive(ctx, scRef, callStarted, info.Err)\n\t\tif info.Err != nil {\n\t\t\treturn\n\t\t}\n\t\tscRef.streamsDecr()"),
  ("C02-rr-increments-twice", "C02", P, "\t\tscRef.streamsIncr()\n\t\treturn scRef, nil\n\t}\n\n\tp.mu.Lock()", "\t\tscRef.streamsIncr()\n\t\tscRef.streamsIncr()\n\t\treturn scRef, nil\n\t}\n\n\tp.mu.Lock()"),
  ("C02-min-scan-ignores-last", "C02", P, "\tfor _, scRef := range p.scRefs {\n\t\tif scRef.getStreamsCnt() < minStreamsCnt {", "\tfor _, scRef := range p.scRefs[:len(p.scRefs)-1] {\n\t\tif scRef.getStreamsCnt() < minStreamsCnt {"),
